@@ -419,3 +419,30 @@ def has_block(seg, b):
     ii[1:, 1:] = np.cumsum(np.cumsum(seg != 0, axis=0), axis=1)
     tot = ii[b:, b:] - ii[:-b, b:] - ii[b:, :-b] + ii[:-b, :-b]
     return bool(np.any(tot == b * b))
+
+
+# ---------------------------------------------------------------------------------------------------
+# array classes: lentil takes "array_like" arguments through np.asarray, i.e. the plain data of whatever it is given
+
+class TaggedArray(np.ndarray):
+    """a do-nothing ndarray subclass (what np.memmap, astropy-style containers etc. look like to np.asarray)"""
+
+
+ARRAY_CLASSES = ["ndarray", "ndarray", "ndarray", "ndarray", "masked", "masked", "masked_nomask", "subclass"]
+
+
+def array_class(arr, selector):
+    """``arr`` as a plain ndarray, as a numpy MaskedArray whose underlying data are ``arr`` (about one sample in six
+    flagged, e.g. a measured surface map with bad pixels: np.asarray() of it is the data) or as a trivial ndarray
+    subclass, chosen by an integer already in the case.  Returns (array, class name)."""
+    arr = np.asarray(arr)
+    c = ARRAY_CLASSES[int(selector) % len(ARRAY_CLASSES)]
+    if arr.ndim == 0 or c == "ndarray":
+        return arr, "ndarray"
+    if c == "masked":
+        rng = np.random.default_rng(int(selector) % (2**31))
+        flags = rng.uniform(size=arr.shape) < 0.17
+        return np.ma.MaskedArray(arr.copy(), mask=flags, fill_value=1e20 if arr.dtype.kind == "f" else None), c
+    if c == "masked_nomask":
+        return np.ma.MaskedArray(arr.copy()), c
+    return arr.copy().view(TaggedArray), c
